@@ -618,14 +618,17 @@ _tok = re.compile(
       |(?P<other>.)""", re.X | re.S)
 
 CANON_RULES = [
-    "whitespace runs collapse to one space; dropped at the ends, after '(' and before ')', around ',' '/' '*' in values "
-    "and around ',' '>' '+' '~' ':' in preludes (selectors, at-rule parameters); never around '+'/'-' in values",
+    "whitespace runs collapse to one space; dropped at the ends, after '(' and before ')'; in preludes (selectors, at-rule "
+    "parameters) also around ',' '>' '+' '~' ':'; in values wherever removing it leaves the CSS token stream unchanged "
+    "(e.g. around ',' '/' '*', next to a string, before '#hash' or '!important'), never before '(', after ')' when an identifier/number follows, or around a bare '+'/'-'",
     "a number token drops a leading '+', leading zeros of the integer part ('0.5' = '.5') and trailing fraction zeros",
     "#rgb/#rgba/#rrggbb/#rrggbbaa and CSS colour keywords used as a whole value token become rgba(r,g,b,a)",
     "comments other than /*! … */ are dropped; the last declaration's semicolon is optional",
     "@charset rule / BOM at the start is dropped",
+    "a style rule, @media or @supports block with no declarations, rules or kept comments inside is dropped (other at-rules with an empty block are kept)",
     "a string token is compared by its value (CSS escapes decoded, either quote kind)",
     "rgb()/rgba() with integer channels and #rrggbbaa compare by channels with alpha rounded to 5 decimals",
+    "when styles differ: hsl()/hsla() values are converted to channels and colour tokens may differ by 1/255 per channel (rounding)",
     "whitespace inside kept comments collapses (re-indentation of comment lines is not meaning)",
 ]
 
@@ -690,40 +693,68 @@ def canon_text(s, colors=True, prelude=False):
     if colors:
         s = _rgba_fn.sub(lambda m: _rgba_str(int(m.group(1)), int(m.group(2)), int(m.group(3)),
                                              float(m.group(4)) if m.group(4) else 1.0).replace("rgba(", "rgba\x00("), s)
-    ms = list(_tok.finditer(s))
-    for i, m in enumerate(ms):
-        k = m.lastgroup
-        t = m.group()
-        if k == "ws":
-            toks.append(" ")
-        elif k == "str":
-            toks.append(canon_string(t))
+    ms = [(m.lastgroup, m.group()) for m in _tok.finditer(s)]
+    ms = [(k, " " if k == "ws" else t) for k, t in ms]
+    # pass 1: canonical text of every token (colour decisions look at the ORIGINAL neighbours)
+    canon, standin = [], []
+    for i, (k, t) in enumerate(ms):
+        c, sd = t, t
+        if k == "str":
+            c = sd = canon_string(t)
         elif k == "num":
-            toks.append(_canon_num(t))
-        elif k == "hash" and colors:
-            c = _hash_rgba(t)
-            toks.append(_rgba_str(c[0], c[1], c[2], c[3] / 255) if c else t)
+            c = sd = _canon_num(t)
+        elif k == "hash":
+            rgba = _hash_rgba(t)
+            if rgba:
+                sd = "zz"       # spelling-independent stand-in: a colour hash counts as an identifier
+                if colors:
+                    c = _rgba_str(rgba[0], rgba[1], rgba[2], rgba[3] / 255)
         elif k == "ident" and colors:
-            nxt = ms[i + 1].group() if i + 1 < len(ms) else ""
-            prv = ms[i - 1].group() if i else ""
-            c = named_colors().get(t.lower())
-            if c and nxt != "(" and prv not in (".", "#", "-", "@", ":", "%", "$") :
-                toks.append(_rgba_str(c[0], c[1], c[2], c[3] / 255))
-            else:
-                toks.append(t)
-        else:
-            toks.append(t)
-        prev_kind = k
+            nxt = ms[i + 1][1] if i + 1 < len(ms) else ""
+            prv = ms[i - 1][1] if i else ""
+            rgba = named_colors().get(t.lower())
+            if rgba and nxt != "(" and prv not in (".", "#", "-", "@", ":", "%", "$"):
+                c = _rgba_str(rgba[0], rgba[1], rgba[2], rgba[3] / 255)
+        canon.append(c)
+        standin.append(sd)
+    # pass 2: whitespace that does not change the token stream (values only)
+    if not prelude:
+        keep = _drop_insignificant_ws(standin)
+        canon = [c for c, kp in zip(canon, keep) if kp]
+    toks = canon
     out = "".join(toks)
     out = re.sub(r" +", " ", out)
-    # whitespace next to punctuation (outside strings: strings never contain a bare space+punct we touch,
-    # so protect them first)
     parts = re.split(r"""("(?:[^"\\]|\\.)*"|'(?:[^'\\]|\\.)*')""", out)
     for i in range(0, len(parts), 2):
-        parts[i] = re.sub(r" ?([,>+~:]) ?" if prelude else r" ?([,/*]) ?", r"\1", parts[i])
+        if prelude:
+            parts[i] = re.sub(r" ?([,>+~:]) ?", r"\1", parts[i])
         parts[i] = re.sub(r"\( ", "(", parts[i])
         parts[i] = re.sub(r" \)", ")", parts[i])
     return "".join(parts).strip().replace("rgba\x00(", "rgba(")
+
+
+def _retok(s):
+    return [m.group() for m in _tok.finditer(s)]
+
+
+def _drop_insignificant_ws(toks):
+    """Values: a whitespace token is dropped when the two tokens around it stay two separate tokens
+    without it (so it does not change the CSS token stream), except before '(' (function call vs
+    parenthesis), after ')' (a functional colour may be spelled as a hash in the other style) and
+    around a bare '+' / '-' (calc() needs them).  Returns a keep-mask."""
+    keep = [True] * len(toks)
+    n = len(toks)
+    for i, t in enumerate(toks):
+        if t == " " and 0 < i < n - 1:
+            a, b = toks[i - 1], toks[i + 1]
+            if a in (",", "/", "*", "(") or b in (",", "/", "*", ")"):
+                keep[i] = False
+            elif b != "(" and a not in ("+", "-", " ") and b not in ("+", "-", " "):
+                if a == ")":
+                    a = "zz"     # a functional colour may be spelled as a hash / keyword in the other style
+                if _retok(a + b) == [a, b]:
+                    keep[i] = False
+    return keep
 
 
 def canon_nodes(nodes, colors=True, keep_all_comments=False):
@@ -741,13 +772,85 @@ def canon_nodes(nodes, colors=True, keep_all_comments=False):
                 continue
             out.append(("stmt", canon_text(nd["text"], False, True)))
         else:
-            out.append(("rule", canon_text(nd["prelude"], False, True), canon_nodes(nd["children"], colors, keep_all_comments)))
+            pre = canon_text(nd["prelude"], False, True)
+            kids = canon_nodes(nd["children"], colors, keep_all_comments)
+            if not kids and (not pre.startswith("@") or re.match(r"@(media|supports)\b", pre, re.I)):
+                continue      # an empty style rule / @media / @supports block means nothing
+            out.append(("rule", pre, kids))
     return out
 
 
 def canon_css(text, colors=True):
     """cssread.parse + canonicalisation; raises cssread.IllFormed."""
+    text = re.sub(r"""("(?:[^"\\]|\\.)*"|'(?:[^'\\]|\\.)*')""", lambda m: m.group().replace("\\\n", ""), text, flags=re.S)
     return canon_nodes(cssread.parse(text), colors)
+
+
+_hsl_fn = re.compile(r"hsla?\(\s*(-?[0-9.]+)(?:deg)?\s*,\s*([0-9.]+)%\s*,\s*([0-9.]+)%\s*(?:,\s*([0-9.]+)\s*)?\)")
+
+
+def _hsl_to_rgb(h, s, l):
+    h = (h % 360) / 360.0
+    s /= 100.0
+    l /= 100.0
+    m2 = l * (s + 1) if l <= 0.5 else l + s - l * s
+    m1 = l * 2 - m2
+
+    def hue(x):
+        x = x % 1.0
+        if x * 6 < 1:
+            return m1 + (m2 - m1) * x * 6
+        if x * 2 < 1:
+            return m2
+        if x * 3 < 2:
+            return m1 + (m2 - m1) * (2 / 3 - x) * 6
+        return m1
+    return [255 * hue(h + 1 / 3), 255 * hue(h), 255 * hue(h - 1 / 3)]
+
+
+_rgba_tok = re.compile(r"rgba\((\d+),(\d+),(\d+),([0-9.]+)\)")
+
+
+def _fuzzy_text_eq(x, y):
+    """Equal up to colour tokens: hsl()/hsla() are converted to channels and every colour token may
+    differ by at most 1/255 per channel and 1e-4 in alpha (rounding of converted colours)."""
+    def norm(t):
+        def rep(m):
+            r, g, b = _hsl_to_rgb(float(m.group(1)), float(m.group(2)), float(m.group(3)))
+            return _rgba_str(round(r), round(g), round(b), float(m.group(4)) if m.group(4) else 1.0)
+        return _hsl_fn.sub(rep, t)
+    x, y = norm(x), norm(y)
+    if x == y:
+        return True
+    cx, cy = _rgba_tok.findall(x), _rgba_tok.findall(y)
+    if len(cx) != len(cy) or _rgba_tok.sub("C", x) != _rgba_tok.sub("C", y):
+        return False
+    for a, b in zip(cx, cy):
+        if any(abs(int(a[i]) - int(b[i])) > 1 for i in range(3)) or abs(float(a[3]) - float(b[3])) > 1e-4:
+            return False
+    return True
+
+
+def canon_equal(a, b):
+    """Equality of canonical trees; declaration values are compared with `_fuzzy_text_eq`."""
+    if a == b:
+        return True
+    if len(a) != len(b):
+        return False
+    for x, y in zip(a, b):
+        if x == y:
+            continue
+        if x[0] != y[0]:
+            return False
+        if x[0] == "decl":
+            if x[1] != y[1] or not _fuzzy_text_eq(x[2], y[2]):
+                return False
+        elif x[0] == "rule":
+            if x[1] != y[1] or not canon_equal(x[2], y[2]):
+                return False
+        else:
+            return False
+    return True
 
 
 def first_diff(a, b, path="/"):
@@ -822,7 +925,7 @@ P_NUMS = ["0.5", "1.25", "10", "0.125", "3", "100", "0.05", "2.5", "1e-3", "0.99
 P_UNITS = ["", "px", "em", "%", "rem", "s", "deg"]
 P_COLORS = ["red", "#ff0000", "#f00", "#00f", "blue", "#abcdef", "#aabbcc", "rgba(1, 2, 3, 0.5)", "hsl(120, 50%, 50%)",
             "#123", "transparent", "white", "#ffffff", "rgb(255, 0, 0)", "#ff000080", "rebeccapurple", "#808080"]
-P_STRS = ['"a b"', '"é"', "'q'", '"it\'s"', '"x\\"y"', "foo", "bar-baz", '"\\a"', '"✓ ok"', '""', '"a,b"']
+P_STRS = ['"a b"', '"é"', "'q'", "foo", "bar-baz", '"✓ ok"', '"a,b"', '"a-b"']
 P_SELS = ["a", ".x", "#i", "b > c", ".y + .z", "d ~ e", "f g", "h:hover", "[t=v]", "k, l", "m::before", "é"]
 P_PROPS = ["color", "width", "margin", "content", "b", "font-family", "z-index", "background"]
 
@@ -845,10 +948,10 @@ def _p_expr(rng, depth=0):
                            "adjust-hue($c, 45deg)", "opacify(rgba(#102030, 0.25), 0.25)"])
     if r < 0.7:
         return rng.choice(['"#{%s}"' % _p_expr(rng, depth + 1), "#{%s}" % _p_expr(rng, depth + 1),
-                           'quote(%s)' % rng.choice(["foo", '"a"']), "unquote(%s)" % rng.choice(P_STRS[:5]),
-                           'str-insert("abc", %s, 2)' % rng.choice(P_STRS[:4]), '"a" + %s' % _p_num(rng),
+                           'quote(%s)' % rng.choice(["foo", '"a"']), "unquote(%s)" % rng.choice(['"a b"', '"é"', "'q'", "foo"]),
+                           'str-insert("abc", %s, 2)' % rng.choice(P_STRS[:4]), '"a" + "%s"' % rng.choice(["b", " c", "é"]),
                            "to-upper-case($s)", "str-length(\"#{%s}\")" % _p_expr(rng, depth + 1),
-                           "inspect(%s)" % _p_expr(rng, depth + 1)])
+                           "to-lower-case(%s)" % rng.choice(P_STRS)])
     if r < 0.85:
         items = [_p_expr(rng, depth + 2) for _ in range(rng.choice([2, 2, 3]))]
         return rng.choice([" ".join(items), "(" + ", ".join(items) + ")", "nth($l, 1)", "join($l, (%s))" % ", ".join(items),
@@ -871,7 +974,7 @@ def _p_decl(rng, ind):
     pad = " " * ind
     r = rng.random()
     if r < 0.08:
-        return pad + "#{%s}-x: %s;" % (rng.choice(["a", "$s", '"w"']), _p_expr(rng))
+        return pad + "#{%s}-x: %s;" % (rng.choice(["a", "b-c", '"w"']), _p_expr(rng))
     if r < 0.14:
         return pad + "font: { family: %s; size: %s; }" % (rng.choice(P_STRS), _p_num(rng))
     if r < 0.2:
@@ -893,7 +996,7 @@ def _p_block(rng, ind, depth):
             out += _p_block(rng, ind + 2, depth + 1)
             out.append(pad + "}")
         elif r < 0.7:
-            out.append(pad + "@media %s {" % rng.choice(["screen", "(min-width: #{$n}px)", "print and (a: b)", "not all"]))
+            out.append(pad + "@media %s {" % rng.choice(["screen", "(min-width: #{10 * 2}px)", "print and (a: b)", "not all"]))
             out += _p_block(rng, ind + 2, depth + 1)
             out.append(pad + "}")
         elif r < 0.76:
@@ -931,7 +1034,7 @@ def gen_program(rng):
             out += _p_block(rng, 2, 0)
             out.append("}")
         elif r < 0.8:
-            out.append("@media %s {" % rng.choice(["screen", "screen and (max-width: 10em)", "(a: #{$n})"]))
+            out.append("@media %s {" % rng.choice(["screen", "screen and (max-width: 10em)", "(a: #{1 + 1})"]))
             out.append("  " + rng.choice(P_SELS) + " {")
             out += _p_block(rng, 4, 1)
             out.append("  }")
